@@ -82,7 +82,8 @@ theorem Ext.chunks_eq {s s' : State} (h : ∀ n, Ext n s s') (hlen : s'.chunks.l
     * no chunk was added or removed, no address range changed and NO BYTE of any chunk was written;
     * the bump positions of all chunks up to and including the current one are the same (chunks after
       the current one hold no live data; they may have been rewound while looking for room);
-    * the current chunk is the same or a later, existing one;
+    * the current chunk is the same (since the fix of the crate in commit c107ca6; `cur` is the weaker
+      statement "the same or a later, existing one" that held before and is kept for its users);
     * an arena without current chunk (unallocated / claimed) has exactly the same chunk list. -/
 structure Intact (s s' : State) : Prop where
   live : s'.live = s.live
@@ -92,15 +93,16 @@ structure Intact (s s' : State) : Prop where
   pos : ∀ i, s.cur = .chunk i → ∀ j, j ≤ i → (s'.chunks[j]?).map (·.pos) = (s.chunks[j]?).map (·.pos)
   noCur : (∀ i, s.cur ≠ .chunk i) → s'.chunks = s.chunks
   cur : CurAdv s s'
+  sameCur : s'.cur = s.cur
 
 theorem Intact.refl (s : State) : Intact s s :=
-  ⟨rfl, ⟨rfl, rfl, rfl, rfl, rfl, rfl⟩, rfl, fun _ _ _ _ => rfl, fun _ => rfl, CurAdv.refl s⟩
+  ⟨rfl, ⟨rfl, rfl, rfl, rfl, rfl, rfl⟩, rfl, fun _ _ _ _ => rfl, fun _ => rfl, CurAdv.refl s, rfl⟩
 
 theorem Intact.of_ext {s s' : State} (h : ∀ n, (∀ i, s.cur = .chunk i → n ≤ i + 1) → Ext n s s')
-    (hlen : s'.chunks.length = s.chunks.length) (hcur : CurAdv s s') : Intact s s' := by
+    (hlen : s'.chunks.length = s.chunks.length) (hcur : s'.cur = s.cur) : Intact s s' := by
   have h0 := h 0 (fun _ _ => Nat.zero_le _)
   refine ⟨h0.live, ⟨h0.minAlign, h0.frames, h0.nextId, h0.userCps, h0.prepared, h0.dropped⟩,
-    h0.geometry_eq hlen, fun i hi j hj => ?_, fun hn => ?_, hcur⟩
+    h0.geometry_eq hlen, fun i hi j hj => ?_, fun hn => ?_, Or.inl hcur, hcur⟩
   · exact (h (i+1) (fun i' hi' => by rw [hi] at hi'; cases hi'; exact Nat.le_refl _)).pos_eq hlen
       (Nat.lt_succ_of_le hj)
   · exact Ext.chunks_eq (fun n => h n (fun i hi => absurd hi (hn i))) hlen
